@@ -58,10 +58,7 @@ pub fn needs_isolation(s: &Subject, bytes: &[u8]) -> bool {
     if !s.empty_alloc {
         return false;
     }
-    match ref_decode(&s.schema, bytes) {
-        Ok((v, _)) => rep_too_big(&v),
-        Err(_) => false,
-    }
+    crate::model::max_empty_count(&s.schema, bytes) > 65536
 }
 
 /// A legitimate claimed count above 2^20 of elements that encode to nothing: decoding takes
@@ -72,10 +69,16 @@ pub fn slow_by_count(s: &Subject, bytes: &[u8]) -> bool {
     if !s.empty_elem {
         return false;
     }
-    match crate::model::ref_decode_raw(&s.schema, bytes) {
-        Ok((v, _)) => rep_over(&v, 1 << 20),
-        Err(_) => false,
+    crate::model::max_empty_count(&s.schema, bytes) > (1 << 20)
+}
+
+/// Scenarios that decode the same bytes many times (dozens of source stacks, every limit) skip
+/// zero-byte-element counts above 2^14 altogether.
+pub fn slowish_by_count(s: &Subject, bytes: &[u8]) -> bool {
+    if !s.empty_elem {
+        return false;
     }
+    crate::model::max_empty_count(&s.schema, bytes) > (1 << 14)
 }
 
 /// Counts above 2^26 of zero-byte elements are never executed in the mass runs.
@@ -83,10 +86,7 @@ pub fn too_slow_by_count(s: &Subject, bytes: &[u8]) -> bool {
     if !s.empty_elem {
         return false;
     }
-    match crate::model::ref_decode_raw(&s.schema, bytes) {
-        Ok((v, _)) => rep_over(&v, 1 << 26),
-        Err(_) => false,
-    }
+    crate::model::max_empty_count(&s.schema, bytes) > (1 << 26)
 }
 
 pub struct Corrupt;
@@ -331,5 +331,111 @@ impl Scenario for BitLimit {
         }
         st.sample(|| json!({"subject": plan.subject, "bit_count": bits, "outcome": format!("{:?}", r), "bytes_read": delivered}));
         Ok(())
+    }
+}
+
+// ------------------------------------------------------------------------------------------
+// Large values decoded in place on a small stack (never aborts / overflows on *valid* input).
+
+#[derive(parity_scale_codec::Encode, parity_scale_codec::Decode)]
+#[repr(transparent)]
+pub struct TrBig(pub [[u8; 300_000]; 2]);
+
+pub struct BigBox;
+
+fn fnv_bytes(b: &[u8]) -> u64 {
+    let mut h: u64 = 0xcbf2_9ce4_8422_2325;
+    for x in b {
+        h = (h ^ *x as u64).wrapping_mul(0x0000_0100_0000_01B3);
+    }
+    h
+}
+
+impl Scenario for BigBox {
+    fn name(&self) -> &'static str {
+        "bigbox"
+    }
+    fn property(&self) -> &'static str {
+        "C03"
+    }
+    fn level(&self) -> &'static str {
+        "exploration"
+    }
+    fn rule(&self) -> &'static str {
+        "additionally: valid encodings of large in-place shapes (Box / Rc / Arc of arrays whose elements are themselves 300 KB arrays, a boxed repr(transparent) newtype of such, nested three deep) decoded on a thread with a 256 KiB stack from slice and unknown-length input: must succeed with the right content and the process must survive (a stack overflow kills the worker and is reported by the supervisor)"
+    }
+    fn cases(&self, _tier: Tier) -> u64 {
+        cap(6 * 2)
+    }
+    fn gen(&self, _seed: u64, idx: u64, _tier: Tier) -> Plan {
+        let kinds = ["Box<[[u8; 300000]; 3]>", "Rc<[[u8; 300000]; 3]>", "Arc<[[u16; 150000]; 2]>", "Box<TrBig>", "Box<[[[u8; 100000]; 3]; 2]>", "Box<[TrBig; 2]>"];
+        let mut p = Plan::new("bigbox", kinds[(idx as usize / 2) % kinds.len()]);
+        p.set("fix_unknown_len", (idx % 2) as i64);
+        p
+    }
+    fn run(&self, plan: &Plan, st: &mut Stats) -> Verdict {
+        use parity_scale_codec::Decode;
+        use std::rc::Rc;
+        use std::sync::Arc;
+        let kind = plan.subject.clone();
+        let unknown = plan.param("fix_unknown_len") == 1;
+        let len: usize = match kind.as_str() {
+            "Box<[[u8; 300000]; 3]>" | "Rc<[[u8; 300000]; 3]>" => 900_000,
+            "Arc<[[u16; 150000]; 2]>" | "Box<TrBig>" | "Box<[[[u8; 100000]; 3]; 2]>" => 600_000,
+            _ => 1_200_000,
+        };
+        let data: Vec<u8> = (0..len).map(|i| (i as u32).wrapping_mul(2654435761).to_le_bytes()[3]).collect();
+        let want = fnv_bytes(&data);
+        let d2 = data.clone();
+        let h = std::thread::Builder::new().stack_size(256 << 10).spawn(move || -> Result<u64, String> {
+            fn go<T: Decode>(data: &[u8], unknown: bool, sum: fn(&T) -> u64) -> Result<u64, String> {
+                let r = if unknown {
+                    let mut rd = parity_scale_codec::IoReader(std::io::Cursor::new(data));
+                    T::decode(&mut rd)
+                } else {
+                    T::decode(&mut &data[..])
+                };
+                r.map(|v| sum(&v)).map_err(|e| e.to_string().chars().take(100).collect())
+            }
+            match kind.as_str() {
+                "Box<[[u8; 300000]; 3]>" => go::<Box<[[u8; 300000]; 3]>>(&d2, unknown, |v| fnv_bytes(v.as_flattened())),
+                "Rc<[[u8; 300000]; 3]>" => go::<Rc<[[u8; 300000]; 3]>>(&d2, unknown, |v| fnv_bytes(v.as_flattened())),
+                "Arc<[[u16; 150000]; 2]>" => go::<Arc<[[u16; 150000]; 2]>>(&d2, unknown, |v| {
+                    let mut h: u64 = 0xcbf2_9ce4_8422_2325;
+                    for x in v.as_flattened() {
+                        for b in x.to_le_bytes() {
+                            h = (h ^ b as u64).wrapping_mul(0x0000_0100_0000_01B3);
+                        }
+                    }
+                    h
+                }),
+                "Box<TrBig>" => go::<Box<TrBig>>(&d2, unknown, |v| fnv_bytes(v.0.as_flattened())),
+                "Box<[[[u8; 100000]; 3]; 2]>" => go::<Box<[[[u8; 100000]; 3]; 2]>>(&d2, unknown, |v| fnv_bytes(v.as_flattened().as_flattened())),
+                _ => go::<Box<[TrBig; 2]>>(&d2, unknown, |v| {
+                    let mut all = Vec::with_capacity(1_200_000);
+                    for t in v.iter() {
+                        all.extend_from_slice(t.0.as_flattened());
+                    }
+                    fnv_bytes(&all)
+                }),
+            }
+        });
+        let r = match h {
+            Ok(h) => h.join(),
+            Err(e) => panic!("harness: cannot spawn thread: {e}"),
+        };
+        let mut t = crate::seams::Trace::new();
+        t.events = 2;
+        st.note(salt(&[&plan.subject, if unknown { "unknown" } else { "slice" }]), &t, true);
+        match r {
+            Err(_) => viol("panic", format!("{}: decoding a valid {}-byte encoding on a 256 KiB stack panicked", plan.subject, len)),
+            Ok(Err(e)) => viol("c03.rejected_valid", format!("{}: a valid {}-byte encoding was rejected on a 256 KiB stack: {}", plan.subject, len, e)),
+            Ok(Ok(got)) if got != want => viol("c03.value_mismatch", format!("{}: decoded content differs from the {} input bytes", plan.subject, len)),
+            Ok(Ok(_)) => {
+                st.probe("large_in_place_values_decoded_on_small_stack");
+                st.sample(|| json!({"subject": plan.subject, "encoding_len": len, "stack": "256 KiB", "input": if unknown { "IoReader<Cursor>" } else { "slice" }}));
+                Ok(())
+            },
+        }
     }
 }
